@@ -351,20 +351,30 @@ def run_panic_rule(ctx, rule, roots, justified, overflow_fns=(), crates=("agdb",
 
 
 def recursion_rule(ctx, rule, seen, cg, depth_guards=()):
-    """Unbounded recursion through the decoders: every call-graph cycle reachable from the entry set must contain a
-    depth guard (a call to one of `depth_guards`)."""
-    nodes = {p: b for p, (b, _, _) in seen.items() if b.crate == "agdb"}
-    adj = {p: [tb.path for _, tb in cg.edges(b) if tb.path in nodes] for p, b in nodes.items()}
+    """Unbounded recursion through the decoders: the derive-generated and hand-written decoders follow the type
+    structure, so a recursive family of serializable types (an ADT that contains itself through its field types,
+    e.g. via Vec<..>) decodes recursively; every such family must contain a depth guard (a call to one of
+    `depth_guards` in one of its decoders). The call graph is not used for the cycle search: class-hierarchy
+    resolution of `T::deserialize` would put every decoder on one spurious cycle."""
+    fa = ctx.facts
+    ser = set()
+    for im in fa.impls:
+        if (im.get("trait") or "").endswith(("serialize::Serialize", "AgdbSerialize")) and im.get("self_adt"):
+            ser.add(im["self_adt"])
+    adj = {}
+    for p in ser:
+        adt = fa.adts.get(p)
+        if not adt:
+            continue
+        adj[p] = sorted({a for v in adt["variants"] for f in v["fields"] for a in f["adts"] if a in ser and a in fa.adts})
     index, low, on, st, comps, cnt = {}, {}, set(), [], [], [0]
-    import sys
-    sys.setrecursionlimit(10000)
 
     def strong(v):
         index[v] = low[v] = cnt[0]
         cnt[0] += 1
         st.append(v)
         on.add(v)
-        for w in adj[v]:
+        for w in adj.get(v, []):
             if w not in index:
                 strong(w)
                 low[v] = min(low[v], low[w])
@@ -378,25 +388,27 @@ def recursion_rule(ctx, rule, seen, cg, depth_guards=()):
                 comp.append(w)
                 if w == v:
                     break
-            if len(comp) > 1 or v in adj[v]:
-                comps.append(comp)
-    for v in list(nodes):
+            if len(comp) > 1 or v in adj.get(v, []):
+                comps.append(sorted(comp))
+    for v in sorted(adj):
         if v not in index:
             strong(v)
     for comp in comps:
-        names = sorted(common.norm(nodes[p].root or nodes[p].npath) for p in comp)
-        guarded = any(common.norm(cfg.callee(t) or "") in depth_guards for p in comp for i, t in cfg.calls(nodes[p]))
-        ctx.ob(rule, "cycle:" + names[0], guarded,
+        guarded = False
+        for p in comp:
+            for b in fa.bodies.values():
+                if b.d.get("name") == "deserialize" and (b.d.get("impl_self") or "").split("<")[0] == p:
+                    if any(common.norm(cfg.callee(t) or "") in depth_guards for i, t in cfg.calls(b)):
+                        guarded = True
+        ctx.ob(rule, "recursive-types:" + "+".join(c.split("::")[-1] for c in comp), guarded,
                "recursion bounded by a depth guard" if guarded else
-               "decoders recurse without a depth bound through %s: deeply nested input overflows the stack" % " <-> ".join(
-                   n.split(" as ")[0].lstrip("<").split("::")[-1] for n in names[:5]),
-               nodes[comp[0]].where, key="%s|%s|cycle|%s" % (ctx.pid, rule, names[0]))
+               "the serializable types %s contain each other: their decoders recurse once per nesting level without a "
+               "depth bound, so deeply nested input overflows the stack" % [c.split("::")[-1] for c in comp],
+               "%s:%d" % (fa.adts[comp[0]]["file"], fa.adts[comp[0]]["line"]),
+               key="%s|%s|recursive-types|%s" % (ctx.pid, rule, "+".join(comp)))
+    ctx.note("%s: %d serializable ADTs inspected, %d recursive families" % (rule, len(adj), len(comps)))
     return comps
 
-
-# ---------------------------------------------------------------------------------------------------------------
-# Requirement helpers for the frozen JUSTIFIED tables: small structural checks `req(fa, body, site) -> bool` that
-# must keep holding for a justification to stay valid (the guard / shape the reason relies on).
 
 def _len_locals(b, suffixes=("::len",)):
     return cfg.derived_locals(b, [tt["d"][0] for i, tt in cfg.calls(b) if (cfg.callee(tt) or "").endswith(suffixes) or
